@@ -97,7 +97,7 @@ RandomAccessIterator3 parallel_multiway_merge_base(
 
     size_t num_seqs = seqs_ne.size();
 
-    if (total_size == 0 || num_seqs == 0)
+    if (total_size == 0 || num_seqs == 0 || size == 0)
         return target;
 
     if (static_cast<DiffType>(num_threads) > total_size)
@@ -137,10 +137,15 @@ RandomAccessIterator3 parallel_multiway_merge_base(
             local_size += chunks[iam][s].second - chunks[iam][s].first;
         }
 
-        multiway_merge_base<Stable, false>(
-            chunks[iam].begin(), chunks[iam].end(), target + target_position,
-            std::min(local_size, static_cast<DiffType>(size) - target_position),
-            comp, mwma);
+        // with sampling splitting and size < total_size a chunk may start
+        // behind the requested size: nothing to merge then
+        if (target_position < static_cast<DiffType>(size))
+            multiway_merge_base<Stable, false>(
+                chunks[iam].begin(), chunks[iam].end(),
+                target + target_position,
+                std::min(local_size,
+                         static_cast<DiffType>(size) - target_position),
+                comp, mwma);
     }
 #else
     std::vector<std::thread> threads(num_threads);
@@ -156,12 +161,15 @@ RandomAccessIterator3 parallel_multiway_merge_base(
                 local_size += chunks[iam][s].second - chunks[iam][s].first;
             }
 
-            multiway_merge_base<Stable, false>(
-                chunks[iam].begin(), chunks[iam].end(),
-                target + target_position,
-                std::min(local_size,
-                         static_cast<DiffType>(size) - target_position),
-                comp, mwma);
+            // with sampling splitting and size < total_size a chunk may start
+            // behind the requested size: nothing to merge then
+            if (target_position < static_cast<DiffType>(size))
+                multiway_merge_base<Stable, false>(
+                    chunks[iam].begin(), chunks[iam].end(),
+                    target + target_position,
+                    std::min(local_size,
+                             static_cast<DiffType>(size) - target_position),
+                    comp, mwma);
         });
     }
 
@@ -174,7 +182,26 @@ RandomAccessIterator3 parallel_multiway_merge_base(
     for (RandomAccessIteratorIterator ii = seqs_begin; ii != seqs_end; ++ii)
     {
         if (ii->first != ii->second)
-            ii->first = chunks[num_threads - 1][count_seqs++].second;
+        {
+            RandomAccessIterator pos = chunks[num_threads - 1][count_seqs].second;
+            if (static_cast<DiffType>(size) < total_size)
+            {
+                // not everything was merged: the sequence was consumed up to
+                // the begin of its first chunk that was not merged completely
+                // (multiway_merge_base advanced the chunk's begin)
+                for (size_t t = 0; t < num_threads; ++t)
+                {
+                    if (chunks[t][count_seqs].first !=
+                        chunks[t][count_seqs].second)
+                    {
+                        pos = chunks[t][count_seqs].first;
+                        break;
+                    }
+                }
+            }
+            ii->first = pos;
+            ++count_seqs;
+        }
     }
 
     return target + size;
